@@ -50,7 +50,8 @@ Definition rt_NACK_RST : Z := 2.
 Inductive rt_out :=
 | RoTx (t uid sess : Z) (bytes : list Z)       (* datagram handed to the socket at time t *)
 | RoSent (mid : Z)                             (* return value of coap_send *)
-| RoNack (t uid sess reason mid : Z)           (* nack handler called with the sent PDU *)
+| RoNack (t uid sess reason mid cnt mx : Z)    (* nack handler called with the sent PDU;
+                                                 ghost: retransmit_cnt and max_retransmit then *)
 | RoNackNoPdu (t sess reason mid : Z)          (* nack handler called without PDU (RST, unknown mid) *)
 | RoAcked (t uid : Z)                          (* ghost: removed from the queue by an ACK *)
 | RoWait (t w hd : Z)                          (* value returned by prepare; hd: head deadline or -1 *)
@@ -80,7 +81,7 @@ Definition rt_retransmit (st : rt_state) (n : sq_node) : rt_state * list rt_out 
     let n' := sq_mk_node (qn_uid n) (qn_sess n) (qn_mid n) c (qn_timeout n) (qn_max n) (qn_bytes n) in
     (rt_enqueue st n' (qn_timeout n * 2 ^ c), [RoTx (rs_now st) (qn_uid n) (qn_sess n) (qn_bytes n)])
   else
-    (st, [RoNack (rs_now st) (qn_uid n) (qn_sess n) rt_NACK_TOO_MANY_RETRIES (qn_mid n)]).
+    (st, [RoNack (rs_now st) (qn_uid n) (qn_sess n) rt_NACK_TOO_MANY_RETRIES (qn_mid n) (qn_cnt n) (qn_max n)]).
 
 (* while (nextpdu && now >= basetime && nextpdu->t <= now - basetime) *)
 Definition rt_due (st : rt_state) : bool :=
@@ -138,7 +139,7 @@ Definition rt_rst (st : rt_state) (s m : Z) : rt_state * list rt_out :=
   match sq_remove (rs_q st) s m with
   | Some ((_, n), q') =>
       let (st1, o) := rt_fire_all (rt_set_q st q') in
-      (st1, RoNack (rs_now st) (qn_uid n) (qn_sess n) rt_NACK_RST (qn_mid n) :: o)
+      (st1, RoNack (rs_now st) (qn_uid n) (qn_sess n) rt_NACK_RST (qn_mid n) (qn_cnt n) (qn_max n) :: o)
   | None =>
       let (st1, o) := rt_fire_all st in (st1, RoNackNoPdu (rs_now st) s rt_NACK_RST m :: o)
   end.
